@@ -46,7 +46,26 @@ def coll_corpus(tier, seed, gens, profiles=("dbg", "rel")):
             jobs += tj("coll_driver", g, tier, prof, seed, n, ["CollTrace"], max_events=25000)
     return jobs
 
+def str_corpus(tier, seed, gens, profiles=("dbg", "rel")):
+    jobs = []
+    for g in gens:
+        for prof in profiles:
+            n = {"quick": 2, "thorough": 6}[tier]
+            if g == "sops":
+                n *= 3
+            jobs += tj("str_driver", g, tier, prof, seed, n, ["StrTrace"], max_events=25000)
+    return jobs
+
 def plan_for(pid, tier, seed):
+    if pid == "C14":
+        return dict(level="model_checking", mc=[], traces=str_corpus(tier, seed, ["sops", "decoders", "srandom"]), special=[],
+                    assumptions=["TLC and the Json/IOUtils community modules",
+                                 "the reference semantics Str.tla incl. the transcribed UTF-8/UTF-16 decoders (cross-validated against std on every input)"])
+    if pid == "C16":
+        return dict(level="model_checking", mc=[], special=[],
+                    traces=coll_corpus(tier, seed, COLL_GENS[pid]) + str_corpus(tier, seed, ["spanics", "srandom"]),
+                    assumptions=["TLC and the Json/IOUtils community modules", "Coll.tla / Str.tla reference semantics (cross-validated against std)",
+                                 "exactly one programmed panic per call (a second panic while unwinding aborts; outside the property)"])
     if pid in COLL_GENS:
         return dict(level="model_checking", mc=[], traces=coll_corpus(tier, seed, COLL_GENS[pid]), special=[],
                     assumptions=["TLC and the Json/IOUtils community modules",
